@@ -369,3 +369,11 @@ func VerifH_C16_AbandonedFallbackThenNext() {
 		verifrt.Assert(r.Header.ID == 0x2222 && r.Header.RCode == 2 && !r.Header.Truncated, "the caller receives the outcome of the TCP exchange of its own query")
 	}
 }
+
+// VerifH_C05_FallbackKeepsReplyOwnership: multiplexed UDP replies are pooled objects: a message handed to a caller
+// must be THAT exchange's reply and must not have been given back to the pool (the read loop would decode the next
+// datagram into it and deliver it to another exchange: one reply satisfying two exchanges). Through the plain upstream
+// NewUpstream builds, for every UDP reply shape with TC set or clear and a TCP leg that fails: a returned message is
+// live, carries the caller's ID and is the reply that was sent; a truncated one is never returned (scenario of
+// C16_ReplyShapes under the ownership ghosts).
+func VerifH_C05_FallbackKeepsReplyOwnership() { VerifH_C16_ReplyShapes() }
